@@ -186,6 +186,17 @@ func (c *Ctx) MergeView(c2 *Ctx) {
 	}
 	known := c.knownKeys()
 	var taken []string
+	// thorough tier: the view is always consulted; what only it reports is recorded as information
+	var only []string
+	for i, o := range c.Obls {
+		o2 := c2.Obls[i]
+		if o.Rule == o2.Rule && o.Construct == o2.Construct && newViolations(o, known) == 0 && newViolations(o2, known) > 0 {
+			only = append(only, fmt.Sprintf("%s: %d report(s) only on the interprocedural view (sites inside helpers the rule was not written for), e.g. %s", o.Rule, newViolations(o2, known), o2.Violations[0].Key))
+		}
+	}
+	if len(only) > 0 {
+		c.Extra["interprocedural_view_only_reports"] = only
+	}
 	for i, o := range c.Obls {
 		o2 := c2.Obls[i]
 		if o.Rule != o2.Rule || o.Construct != o2.Construct {
